@@ -604,9 +604,188 @@ func (u *Unit) chanClose(env *Env, ch Term, at ast.Node) {
 	u.emit(env, 6, Term{}, Term{}, ch, Term{})
 }
 
+// result of applying a known literal to the given argument terms in the given state, as a term (obligations muted: the
+// literal's own safety is checked where this is used with symbolic in-range arguments).  Multiple return paths become an ite.
+func (u *Unit) litResult(env *Env, li *litInfo, sig *types.Signature, args []Term) Term {
+	sub := env.clone()
+	base := len(sub.pc)
+	saveInfo, saveRes, saveTys, saveLoops, saveLits := u.Info, u.results, u.resTys, u.loops, u.lits
+	u.Info = li.info
+	u.loops, u.lits = numberLoops(li.owner.Decl)
+	u.curFn = append(u.curFn, li.owner)
+	saveObs := u.muteObs
+	u.muteObs = true
+	u.inClosure++
+	defer func() {
+		u.Info, u.results, u.resTys, u.loops, u.lits = saveInfo, saveRes, saveTys, saveLoops, saveLits
+		u.curFn = u.curFn[:len(u.curFn)-1]
+		u.muteObs = saveObs
+		u.inClosure--
+	}()
+	i := 0
+	for _, fld := range li.lit.Type.Params.List {
+		for _, n := range fld.Names {
+			if obj := u.Info.Defs[n]; obj != nil && i < len(args) {
+				sub.vars[obj] = args[i]
+			}
+			i++
+		}
+	}
+	u.results, u.resTys = nil, nil
+	for k := 0; k < sig.Results().Len(); k++ {
+		u.resTys = append(u.resTys, sig.Results().At(k).Type())
+	}
+	outs := u.execBlock(li.lit.Body.List, sub)
+	var res Term
+	first := true
+	for k := len(outs) - 1; k >= 0; k-- {
+		o := outs[k]
+		if o.kind == oPanic {
+			continue
+		}
+		if o.kind != oReturn || len(o.vals) == 0 {
+			unsup("comparison literal falls through")
+		}
+		if first {
+			res = o.vals[0].Term
+			first = false
+			continue
+		}
+		res = Ite(And(o.env.pc[base:]...), o.vals[0].Term, res)
+	}
+	if first {
+		unsup("comparison literal never returns")
+	}
+	return res
+}
+
+// sort.SliceStable(x, less) / sort.Slice(x, less).  TRUSTED library contract:
+//   requires  less is element-determined (its answer for positions i, j depends only on the elements currently there) and is a
+//             strict weak ordering (irreflexive, transitive, incomparability transitive);
+//   ensures   the cells of x are a permutation p of the old cells (x[i] == old(x)[p[i]]), ordered (no i<j with less(j,i)), and -
+//             SliceStable only - stable (for i<j, !less(i,j) ==> p[i] < p[j]); nothing else changes.
+// What is verified about fpGo is that each call site meets the precondition with the relation and slice the property names.
 func (u *Unit) sortSliceStable(c *ast.CallExpr, env *Env) []Outcome {
-	unsup("sort.SliceStable at %s", u.pos(c.Pos()))
-	return nil
+	stable := true
+	if se, ok := c.Fun.(*ast.SelectorExpr); ok && se.Sel.Name == "Slice" {
+		stable = false
+	}
+	xs := u.eval(c.Args[0], env)
+	if xs.Sort != SSlice {
+		unsup("sort.SliceStable on a non-slice value")
+	}
+	st, ok := types.Unalias(xs.Ty).Underlying().(*types.Slice)
+	if !ok {
+		unsup("sort.SliceStable on %s", xs.Ty)
+	}
+	lessV := u.eval(c.Args[1], env)
+	sig, _ := types.Unalias(lessV.Ty).Underlying().(*types.Signature)
+	if sig == nil {
+		unsup("sort.SliceStable with a non-function")
+	}
+	u.safety(env, "nil", c.Pos(), "less function of "+u.exprText(c.Fun), Not(Same(lessV.Term, Term{"nil_Fn", SFn})))
+	li := u.knownLits[lessV.S]
+	if u.effectfulCallbacks() {
+		unsup("sort.SliceStable in effectful mode")
+	}
+	u.D.Trust("sort.SliceStable/sort.Slice: given an element-determined strict weak ordering, the slice becomes an ordered (SliceStable: stable) permutation of itself; nothing else changes")
+	s := xs.Term
+	n := sLen(s)
+	es := u.sortOf(st.Elem())
+	hn := sliceHeapName(es)
+	hs := ArrS(SRef, ArrS(SInt, es))
+	intT := types.Typ[types.Int]
+	rel := func(e *Env, i, j Term) Term {
+		if li != nil && li.blk == nil {
+			return u.litResult(e, li, sig, []Term{i, j})
+		}
+		u.assumeUsed("user callbacks are deterministic functions of their arguments and do not touch the library's heap")
+		name, rs, _ := u.applyName(sig, 0)
+		return App(name, rs, lessV.Term, i, j)
+	}
+	inRange := func(ts ...Term) Term {
+		var cs []Term
+		for _, t := range ts {
+			cs = append(cs, le(IntLit(0), t), lt(t, n))
+		}
+		return And(cs...)
+	}
+	tag := u.siteTag(c)
+	// (1) the literal is safe for all in-range positions
+	if li != nil && li.blk == nil {
+		sub := env.clone()
+		i, j := u.D.Fresh("si", SInt), u.D.Fresh("sj", SInt)
+		sub.assume(inRange(i, j))
+		args := []Value{{i, intT}, {j, intT}}
+		saveDepth := u.litDepth
+		u.applyKnownLit(sub, li, lessV.Term, sig, args, c)
+		u.litDepth = saveDepth
+		u.adoptDecls(env, sub)
+	}
+	// (2) strict weak ordering on the positions of the current arrangement
+	{
+		sub := env.clone()
+		i, j, k := u.D.Fresh("si", SInt), u.D.Fresh("sj", SInt), u.D.Fresh("sk", SInt)
+		sub.assume(inRange(i, j, k))
+		rij, rji, rjk, rkj, rik, rki, rii := rel(sub, i, j), rel(sub, j, i), rel(sub, j, k), rel(sub, k, j), rel(sub, i, k), rel(sub, k, i), rel(sub, i, i)
+		u.assert(sub, "pre/sort.less/irreflexive@"+tag, "pre", c.Pos(), "less(i,i) is false for every position", Not(rii))
+		u.assert(sub, "pre/sort.less/transitive@"+tag, "pre", c.Pos(), "less(i,j) && less(j,k) ==> less(i,k)", Imp(And(rij, rjk), rik))
+		u.assert(sub, "pre/sort.less/incomparability-transitive@"+tag, "pre", c.Pos(), "i~j && j~k ==> i~k where a~b := !less(a,b) && !less(b,a)", Imp(And(Not(rij), Not(rji), Not(rjk), Not(rkj)), And(Not(rik), Not(rki))))
+		u.adoptDecls(env, sub)
+	}
+	// (3) element-determined: in any two arrangements of the cells, equal elements give equal answers
+	if li != nil && li.blk == nil {
+		mk := func(tagName string) (*Env, Term) {
+			e := env.clone()
+			h := u.heap(e, hn, hs)
+			arr := u.D.Fresh("arr"+tagName, ArrS(SInt, es))
+			u.setHeap(e, hn, Store(h, sBase(s), arr))
+			return e, arr
+		}
+		ea, arrA := mk("A")
+		eb, arrB := mk("B")
+		i, j, i2, j2 := u.D.Fresh("si", SInt), u.D.Fresh("sj", SInt), u.D.Fresh("si", SInt), u.D.Fresh("sj", SInt)
+		ra := rel(ea, i, j)
+		rb := rel(eb, i2, j2)
+		sub := env.clone()
+		sub.assume(inRange(i, j, i2, j2))
+		sub.assume(Same(Select(arrA, u.idx(s, i)), Select(arrB, u.idx(s, i2))))
+		sub.assume(Same(Select(arrA, u.idx(s, j)), Select(arrB, u.idx(s, j2))))
+		u.assert(sub, "pre/sort.less/element-determined@"+tag, "pre", c.Pos(), "less(i,j) depends only on the elements of the sorted slice currently at i and j (it reads the slice being sorted, not a copy)", Same(ra, rb))
+	} else {
+		u.assumeUsed("an opaque less function given to sort is element-determined on the slice being sorted")
+	}
+	// effect
+	{
+		sub := env.clone()
+		sub.assume(lt(IntLit(1), n))
+		u.frameCheckRef(sub, sBase(s), "cells", c)
+		u.adoptDecls(env, sub)
+	}
+	hOld := u.heap(env, hn, hs)
+	oldArr := Select(hOld, sBase(s))
+	newArr := u.D.Fresh("sorted", ArrS(SInt, es))
+	p := u.D.Fresh("sortperm", ArrS(SInt, SInt))
+	q := u.D.Fresh("sortinv", ArrS(SInt, SInt))
+	i := u.D.Bound("i", SInt)
+	rng := And(le(IntLit(0), i), lt(i, n))
+	env.assume(Forall([]Term{i}, Imp(rng, And(le(IntLit(0), Select(p, i)), lt(Select(p, i), n), Same(Select(q, Select(p, i)), i))), []Term{Select(p, i)}))
+	env.assume(Forall([]Term{i}, Imp(rng, And(le(IntLit(0), Select(q, i)), lt(Select(q, i), n), Same(Select(p, Select(q, i)), i))), []Term{Select(q, i)}))
+	env.assume(Forall([]Term{i}, Imp(rng, Same(Select(newArr, u.idx(s, i)), Select(oldArr, u.idx(s, Select(p, i))))), []Term{Select(newArr, u.idx(s, i))}))
+	k := u.D.Bound("k", SInt)
+	env.assume(Forall([]Term{k}, Imp(Or(lt(k, sOff(s)), le(add(sOff(s), n), k)), Same(Select(newArr, k), Select(oldArr, k))), []Term{Select(newArr, k)}))
+	u.setHeap(env, hn, u.define(env, "h_"+hn, Store(hOld, sBase(s), newArr)))
+	// ordered / stable, with the relation read in the new state
+	a, b := u.D.Bound("a", SInt), u.D.Bound("b", SInt)
+	rab, rba := rel(env, a, b), rel(env, b, a)
+	ab := And(le(IntLit(0), a), lt(a, b), lt(b, n))
+	env.assume(Forall([]Term{a, b}, Imp(ab, Not(rba))))
+	if stable {
+		env.assume(Forall([]Term{a, b}, Imp(And(ab, Not(rab)), lt(Select(p, a), Select(p, b)))))
+	}
+	env.alias["_sortperm"] = p
+	env.alias["_sortinv"] = q
+	return ret(env)
 }
 
 func (u *Unit) userSpecFn(name string, x *ast.CallExpr, env *Env, sc *specCtx) (Value, bool) {
